@@ -38,13 +38,14 @@ class Mon:
         self.last_finished = 0
         self.dirs_before_start = set()
         self.wanted = None
+        self.dir_failed = False
 
 
 class Shape:
     """one family member: how the graph is drawn from symbolic choices"""
 
     def __init__(self, name, nb, nsrc=1, slots=2, fixed_ins=None, roles='all', outs2=(), phony='sym', pools=None,
-                 targets='last', validation_free=False, cyclic=False, kmodes=(None, 'sym'), dirty='sym', par='sym', outcomes=None):
+                 targets='last', validation_free=False, cyclic=False, kmodes=(None, 'sym'), dirty='sym', par='sym', outcomes=None, dirs_fail=False):
         self.name, self.nb, self.nsrc, self.slots = name, nb, nsrc, slots
         self.fixed_ins = fixed_ins      # {step: [file indices]} or None = symbolic over earlier files
         self.roles = roles              # 'all' | 'ordval' | 'explicit'
@@ -58,6 +59,7 @@ class Shape:
         self.dirty = dirty              # 'sym' | 'all' (every non-phony step is out of date)
         self.par = par                  # 'sym' (any -j >= 1) | a concrete -j
         self.outcomes = outcomes        # None = the check's outcome set
+        self.dirs_fail = dirs_fail      # creating the output directory of a step may fail (symbolic)
 
 
 ROLE_SPLITS = {
@@ -329,6 +331,11 @@ class Sched:
                 f = I.deref(o).fields[0].v
                 if f in H.producer:
                     H.mon.dirs_before_start.add(H.producer[f])
+                    if H.shape.dirs_fail and not H.mon.dir_failed and I.choose('mkdir_fails%d' % H.producer[f], 2) == 1:
+                        # environment fault: mkdir fails (read-only tree, dangling symlink parent ...)
+                        H.mon.dir_failed = True
+                        H.mon.events.append(('mkdir-failed', H.producer[f]))
+                        return err(Opaque('io::Error', ('PermissionDenied',)))
             return ok(UNIT)
 
         def counts_of(work):
@@ -499,6 +506,10 @@ class Sched:
         def fail(g, key, desc):
             if g in G:
                 I.fail('%s:%s' % (g, key), desc + '; events=%r states=%r' % (mon.events[-14:], states), extra=self.extra())
+        if mon.dir_failed:
+            if res.variant == 'Ok' and res.fields[0].v is True:
+                fail('C05', 'success-despite-mkdir-failure', 'an output directory could not be created, yet the build reports success')
+            return
         if res.variant == 'Err':
             msg = M.models.anyhow_text(I, res.fields[0]) or b''
             if b'unknown pool' in msg:
@@ -566,6 +577,14 @@ def families(tier):
         Shape('diamond', 4, fixed_ins={0: [0], 1: [1], 2: [1], 3: [2, 3]}, roles='ord3', phony='none', targets='last'),
         Shape('two-output producer with two consumers and a final step', 4, outs2=(0,),
               fixed_ins={0: [0], 1: [1, 2], 2: [1, 2], 3: [3, 4]}, roles='explicit', phony='none', targets='last'),
+    ]
+    return fams
+
+
+def fault_families(tier):
+    fams = [
+        Shape('three independent steps; creating an output directory may fail', 3, fixed_ins={0: [0], 1: [0], 2: [0]},
+              roles='explicit', phony='none', targets='every', dirs_fail=True, kmodes=(None, 'sym')),
     ]
     return fams
 
